@@ -599,16 +599,16 @@ func c33Responses(r *evid.Run, t *testing.T, ci int, rng *rand.Rand) {
 
 func TestC33(t *testing.T) {
 	r := evid.Start(t, "C33", "exploration")
-	r.Cases("uev", r.N(40, 1400), 0, func(ci int, rng *rand.Rand) { c33UserEvents(r, t, ci, rng) })
-	r.Cases("query", r.N(50, 1800), 0, func(ci int, rng *rand.Rand) { c33Queries(r, t, ci, rng) })
-	r.Cases("resp", r.N(50, 1800), 0, func(ci int, rng *rand.Rand) { c33Responses(r, t, ci, rng) })
+	r.Cases("uev", r.N(240, 5000), 0, func(ci int, rng *rand.Rand) { c33UserEvents(r, t, ci, rng) })
+	r.Cases("query", r.N(300, 6000), 0, func(ci int, rng *rand.Rand) { c33Queries(r, t, ci, rng) })
+	r.Cases("resp", r.N(300, 6000), 0, func(ci int, rng *rand.Rand) { c33Responses(r, t, ci, rng) })
 	for _, k := range []string{"user_events_accepted_exactly_at_limit", "user_events_rejected_at_limit_plus_1", "queries_accepted_exactly_at_limit", "queries_rejected_at_predicted_limit_plus_1", "responses_sent_exactly_at_limit", "responds_rejected_at_limit_plus_1", "relay_envelopes_exactly_at_limit"} {
-		if r.Counter(k) < int64(r.N(20, 500)) {
+		if r.Counter(k) < int64(r.N(60, 500)) {
 			r.Inconclusive(fmt.Sprintf("boundary class %s observed only %d times", k, r.Counter(k)))
 		}
 	}
 	r.Finish("boundary search around every limit: UserEvent with configured limits 64..9216 (and 9217/12000, which Create refuses) x 9 name lengths x {name+payload, encoded size} at limit-2..limit+2 x Lamport time widths; Query with QuerySizeLimit 100..2000 x 4 parameter shapes x encoded size limit-3..limit+3 (overhead calibrated on the node's own encoding); Query.Respond with QueryResponseSizeLimit 64..4096 x ids/Lamport widths x encoded size limit-2..limit+2, relay factor 0..members. Sizes are taken from the bytes drained from the node's broadcast queues and received by puppets. Non-trivial = every attempt; distinct by (limit, shape, offset from the limit, outcome)",
-		r.N(300, 600),
+		r.N(1500, 4000),
 		"'sent' for user events and queries is observed as 'queued for gossip' (passive memberlist; the harness drains the queues), for responses as packets received by puppets",
 		"acks are not query responses in the sense of the statement and are not checked against QueryResponseSizeLimit; relay envelopes are")
 }
